@@ -195,12 +195,12 @@ def gen_hist(ctx):
     def add(klass, blobs, steps, tail=1, cost=None, **kw):
         steps = clean_tail(steps, tail) if tail else steps
         c = {"op": "hist", "klass": klass, "blobs": [hx(b) for b in blobs], "steps": steps}
-        c["cost"] = cost if cost is not None else sum(2 + len(s.get("script", {})) for s in steps if s["t"] == "pull")
+        c["cost"] = cost if cost is not None else sum(2 + len(s.get("script", {})) for s in steps if s["t"] in ("pull", "par"))
         c.update(kw)
         H.append(c)
 
     q = ctx.quick()
-    rep = 1 if q else 6
+    rep = 2 if q else 6
 
     # --- corpus first: minimal histories that once violated the property (corpus/C03/*.json)
     cdir = os.path.join(vlib.VERIF, "corpus", "C03")
@@ -342,6 +342,24 @@ def gen_hist(ctx):
         add("digest-dash", b[:1], [pull_step("ns/m:t", [{"digest": d0.replace(":", "-"), "size": len(b[0])}])], tail=0, nomodel=True)
         add("digest-upper", b[:1], [pull_step("ns/m:t", [{"digest": "sha256:" + sha(b[0]).upper(), "size": len(b[0])}])], tail=0, nomodel=True)
 
+        # --- K: server restart (PruneLayers) between attempts: resume state is gone, referenced blobs stay
+        n0 = len(b[0])
+        add("restart-after-poisoned-record", b[:1], [pull_step("ns/m:t", [{"blob": 0}], None, {"head:0": [{"cl": n0 + 3}], "get:0": [{"status": 302}]}), {"t": "prune"},
+                                                     {"t": "pull", "name": "ns/m:t", "manifest": {"layers": [{"blob": 0}]}, "script": {}, "clean": True}], tail=0)
+        add("restart-keeps-models", b[:3], [pull_step("ns/m:t", [{"blob": 0}], {"blob": 1}), pull_step("ns/n:t", [{"blob": 2}, {"blob": 0}], None, {"get:2": [{"status": 302}]}), {"t": "prune"},
+                                            {"t": "pull", "name": "ns/n:t", "manifest": {"layers": [{"blob": 2}, {"blob": 0}]}, "script": {}, "clean": True}], tail=0)
+        # --- L: pulls at the same time (shared layers go through one blobDownload); monitor only
+        n1 = len(b[1])
+        slow = {"cdn:1:%d" % (n1 - 1): [{"cut": rng.randrange(0, n1), "end": "unexp", "cl": n1}]}
+        add("concurrent-shared-layer", b[:3], [{"t": "par", "script": dict(slow), "pulls": [{"name": "ns/m:t", "manifest": {"layers": [{"blob": 1}, {"blob": 0}]}},
+                                                                                              {"name": "ns/n:t", "manifest": {"layers": [{"blob": 1}, {"blob": 2}]}}]}], tail=0)
+        add("concurrent-same-name", b[:2], [{"t": "par", "script": dict(slow), "pulls": [{"name": "ns/m:t", "manifest": {"layers": [{"blob": 1}, {"blob": 0}]}},
+                                                                                           {"name": "ns/m:t", "manifest": {"layers": [{"blob": 1}, {"blob": 0}]}}]}], tail=0)
+        add("concurrent-shared-layer-corrupt", b[:3], [{"t": "par", "script": {"cdn:1:%d" % (n1 - 1): [{"flip": rng.randrange(n1)}]},
+                                                        "pulls": [{"name": "ns/m:t", "manifest": {"layers": [{"blob": 1}, {"blob": 0}]}}, {"name": "ns/n:t", "manifest": {"layers": [{"blob": 1}, {"blob": 2}]}}]},
+                                                       {"t": "pull", "name": "ns/m:t", "manifest": {"layers": [{"blob": 1}, {"blob": 0}]}, "script": {}, "clean": True},
+                                                       {"t": "pull", "name": "ns/n:t", "manifest": {"layers": [{"blob": 1}, {"blob": 2}]}, "script": {}, "clean": True}], tail=0)
+
         # --- H: the client goes away in the middle of the pull
         for key in ["head:0", "get:0", "cdn:0:%d" % (len(b[0]) - 1), "head:1", "cdn:1:%d" % (len(b[1]) - 1)]:
             st = pull_step("ns/m:t", [{"blob": 0}, {"blob": 1}], None, {})
@@ -354,7 +372,7 @@ def gen_hist(ctx):
         add("progress-then-cancel", b[:2], [st], tail=2)
 
     # --- G: random multi-attempt histories
-    n = 12 if q else 150
+    n = 30 if q else 150
     for _ in range(n):
         nb = rng.randint(1, 3)
         blobs = [rnd_blob(rng, 1, 32) for _ in range(nb)]
@@ -663,6 +681,13 @@ def render_hist(c, o):
         tab = cq_list(["(%s, %s)" % (cq_bytes(b), cq_N(i + 1)) for i, b in enumerate(blobs)], "(bytes * digest)")
     pre = EMPTY_SNAP
     for si, (sc, so) in enumerate(zip(c["steps"], o["steps"])):
+        if sc["t"] == "prune":
+            try:
+                out.append((si, "chk_prune %s %s" % (cq_store(ids, pre), cq_store(ids, so["store"])), None))
+            except Unrenderable as ex:
+                out.append((si, None, str(ex)))
+        elif sc["t"] == "par":
+            out.append((si, None, "concurrent pulls: monitor only"))
         if sc["t"] == "pull":
             if c.get("layout_total") is not None:
                 recs = sorted(((int(fn.rsplit("-", 1)[1]), e["rec"]) for fn, e in so["store"]["blobs"].items() if "-partial-" in fn))
@@ -849,6 +874,21 @@ def monitor_hist(ctx, c, o):
                 ctx.violation({"class": "retry-impossible", "cause": "other"},
                               "after the failed attempts of this history, clean attempts against a fault-free registry keep failing: %s" % so.get("error"),
                               dict(replay, step=si))
+        if sc["t"] == "par":
+            for p, r in zip(sc["pulls"], so["results"]):
+                if not r["success"]:
+                    continue
+                rel = "%s/%s" % (o["reg"], p["name"].replace(":", "/"))
+                m = go_manifest(so["manifests_served"][p["name"].replace(":", "/")].encode())
+                for kind, l in check_manifest_layers(store, m):
+                    if kind != "size":
+                        ctx.violation({"class": "%s-layer-after-success" % kind, "via": "concurrent"},
+                                      "concurrent pull of %s reported success but layer %s is %s" % (p["name"], l.get("digest", "")[:19], kind), dict(replay, step=si))
+                stored = store["manifests"].get(rel)
+                if stored is None or go_manifest(stored.encode()) != m:
+                    ctx.violation({"class": "stored-manifest-differs"}, "concurrent pull reported success but the stored manifest is not the served one", dict(replay, step=si))
+        if sc["t"] == "prune" and so.get("error"):
+            ctx.violation({"class": "prune-failed"}, "PruneLayers failed: %s" % so["error"], dict(replay, step=si))
         # every name must resolve to intact layers after every step
         for rel2, body in store["manifests"].items():
             sm = go_manifest(body.encode())
@@ -939,9 +979,13 @@ def run(ctx, only=None):
                     v = dict(best[2], what=best[2]["what"] + " [shrunk from a %d-step %s history]" % (len(c["steps"]), c["klass"]))
             ctx.violation(v["sig"], v["what"], v["replay"])
         for s in o.get("steps", []):
-            if s.get("t") == "pull":
-                ctx.count("pull-" + ("success" if s.get("success") else "failure"))
-                walls.append(s.get("wall_ms", 0))
+            if s.get("t") == "par":
+                for r in s.get("results", []):
+                    ctx.count("concurrent-pull-" + ("success" if r.get("success") else "failure"))
+            if s.get("t") in ("pull", "par"):
+                if s.get("t") == "pull":
+                    ctx.count("pull-" + ("success" if s.get("success") else "failure"))
+                    walls.append(s.get("wall_ms", 0))
                 for e in s.get("served", []):
                     ctx.count("served-%s-%s%s" % (e["k"].split(":")[0], e["status"], "" if e["end"] == "clean" else "-" + e["end"]))
         if o.get("crashed"):
@@ -992,13 +1036,19 @@ MANIFEST = {
     "engine": "coq-model+go-differential",
     "level_claimed": {
         "category": "proof",
-        "text": "Coq theorems over a part-level model of blob download and PullModel with the registry/CDN as universally quantified response lists "
-                "(see notes/C03.md for the exact list and what is partial); the hand-written model is tied to server/download.go and server/images.go by a "
-                "differential run of the real /api/pull handler against a scripted fake registry+CDN, evaluated inside Coq with vm_compute; the property is "
-                "also monitored directly on the implementation's store after every step.",
-        "design_ref": "DESIGN.md section 5, C03",
+        "text": "Coq theorems over a part-level executable model of blob download (Prepare/run/downloadChunk/downloadBlob), PullModel, the redirect policy and "
+                "makeRequestWithRetry, with SHA-256 an arbitrary function and the registry/CDN universally quantified response lists: for every history of attempts, "
+                "success => served manifest stored and every layer present with its digest (size under a self-consistency hypothesis); every name always resolves to "
+                "intact layers and a failed/cancelled attempt changes no name and removes no blob; the challenge parser never panics (iff-characterisation of the "
+                "unrepaired panic); the part layout tiles the blob; fault-free retries succeed within #layers attempts after every history without a wrong "
+                "Content-Length at HEAD, and unconditionally after a restart. Two clauses are false on the faithful model and recorded as known findings with "
+                "_full/_refuted/_partial (layer sizes never checked; part records poisoned by an oversized Content-Length). The hand-written model is tied to "
+                "server/download.go and server/images.go by a differential run of the real /api/pull handler against a scripted fake registry+CDN, evaluated "
+                "inside Coq with vm_compute on the responses actually served; the property is also monitored directly on the store after every step.",
+        "design_ref": "DESIGN.md section 5, C03; notes/C03.md",
     },
-    "level_note": "Trusted: Coq kernel/vm_compute; the model-to-code tie is differential testing (generator-bounded); SHA-256 abstract; file-system errors, process "
-                  "crashes, timers and goroutine interleavings not modelled; retry clause proved under a guard (truthful Content-Length).",
+    "level_note": "Trusted: Coq kernel/vm_compute; the model-to-code tie is differential testing (generator-bounded); SHA-256 abstract (digest table of the published "
+                  "blobs for evaluation); file-system errors, process crashes (C12), timers and goroutine interleavings of parts not modelled; concurrent pulls and "
+                  "non-canonical digest spellings are monitored but not modelled; JSON decoding of manifests is done by the python glue.",
     "technique": "Coq proof (store invariants preserved by every pull for every environment; induction over histories) + model/implementation differential check",
 }
